@@ -558,6 +558,65 @@ func runC10(r *rt.Runner) {
 			c10Trial(c, pool, c.Rand(), true, nil, nil)
 		}
 	})
+	// state that grows with use: many distinct query keys, type names and map keys pass through a shared codec from
+	// several goroutines; afterwards it must still answer ordinary calls, and answer them as it did alone
+	r.Do("churn/query-keys", func(c *rt.C) {
+		c.Input([]byte("churn: 8 goroutines x 400 distinct query keys on one codec"))
+		c.Budget(40_000_000)
+		pool := buildC10Pool()
+		cd := j5codec.NewCodec(j5codec.WithResolver(pool.types), j5codec.WithProtoToAny())
+		var item *c10Item
+		for _, it := range pool.items {
+			if it.name == "FullSchema" {
+				item = it
+			}
+		}
+		var wg sync.WaitGroup
+		var calls atomic.Int64
+		for g := 0; g < 8; g++ {
+			wg.Add(1)
+			go func(g int) {
+				defer wg.Done()
+				for i := 0; i < 400; i++ {
+					q := url.Values{}
+					q.Set(fmt.Sprintf("unknownKey%dx%d", g, i), "1")
+					q.Set(fmt.Sprintf("sBar.nested%dx%d", g, i), "v")
+					m := item.newMsg()
+					_ = cd.QueryToProto(q, m)
+					calls.Add(1)
+					if i%50 == 0 {
+						_ = c10Run(cd, item, 2)
+					}
+				}
+			}(g)
+		}
+		done := make(chan struct{})
+		go func() { wg.Wait(); close(done) }()
+		select {
+		case <-done:
+		case <-time.After(120 * time.Second):
+			cpu0 := rt.ProcessCPU()
+			select {
+			case <-done:
+			case <-time.After(5 * time.Second):
+				if rt.ProcessCPU()-cpu0 < int64(250*time.Millisecond) {
+					rt.Blocked(fmt.Sprintf("query-key churn: %d calls returned, the rest have not after 125s and the process is idle", calls.Load()))
+				}
+				fmt.Fprintf(os.Stderr, "VERIF-WATCHDOG churn did not finish in 125s (inconclusive)\n")
+				os.Exit(exitWatchdog)
+			}
+		}
+		c.EndBudget()
+		c.Eval(rt.Hash("churn/query-keys"), true)
+		c.EventN("calls", calls.Load())
+		for op := 0; op < 3; op++ {
+			want := []string{item.encWant, item.decWant, item.qryWant}[op]
+			if got := c10Run(cd, item, op); got != want {
+				c.Violate("result-differs/after-churn", fmt.Sprintf("after 3200 query calls with distinct keys the shared codec answers %s of FullSchema with %s, alone it is %s", []string{"encode", "decode", "query"}[op], got, want), nil)
+			}
+		}
+		c.Feature("c10:churn")
+	})
 	nb := r.Scale(200, 6000)
 	for b := 0; b < nb; b++ {
 		r.Do(fmt.Sprintf("trials/%d", b), func(c *rt.C) {
